@@ -121,6 +121,25 @@ theorem C01_scanning_stage_crash_sites (fsys : FileSys) (n : Nat) (rootName : By
     (fun hp => by simp [Sc.init] at hp) site h
   simpa [ScanStagePanic] using this
 
+/-- **C01 (single-file projects): the scanning stage is total.**  For a project in which no INCLUDE can
+    succeed (no regular file at any path the INCLUDE parameters resolve to — in particular a document
+    without INCLUDE), whatever the root file's bytes and the oracle's answers: with fuel above
+    `5·(4·|file| + 11)` the core's scanning loop ends with the directive forest or with a located error
+    value — it reaches no crash site at all (the residual processBody site needs a resume after an
+    INCLUDE) and does not run out of fuel: no crash and no hang of the whole scanning stage. -/
+theorem C01_single_file_scanning_total (fsys : FileSys) (hfs : NoFiles fsys) (rootName : Bytes) (content : Array UInt8)
+    (lenAt : BodyKind → Nat → LenAnswer) (banned : List Kind) (n : Nat) (hn : 5 * (4 * content.size + 11) < n) :
+    Total (Core.run fsys n { current := { name := rootName, env := mkEnv content lenAt, sc := Sc.init .stateRoot }, banned := banned }) := by
+  have hinit := goodP_init (mkEnv content lenAt) reachAt .stateRoot C12.root_in_reach
+  refine run_total_single reachInputs reachAt C12.table_ok C12.root_in_reach fsys hfs n _ _ hinit rfl rfl
+    (fun hp => by simp [Sc.init] at hp) ?_
+  simp only [findCap]
+  show (4 + 1) * (4 * content.size + 11) < n
+  omega
+
+/-- non-vacuity: the file system without any file -/
+example : NoFiles (fun _ => .notExist) := fun _ _ _ h => by cases h
+
 /-! ### the build stage never dereferences nil (Model/Build.lean, tied by op `cat`) -/
 
 section Build
